@@ -85,6 +85,14 @@ fn check_one(b: [u8; 4], p: &mut Part) -> Option<[u8; 3]> {
         },
     }
     if let Ok(v) = &r {
+        // the classification helpers must agree with the wire shape: a mod is a mod, everything else is not
+        if v.is_mod() != (shape == Shape::Mod) || v.is_builtin() == v.is_mod() {
+            p.violation(
+                "C13/is-mod-is-builtin-disagree-with-shape",
+                format!("{} ({:?}-shaped) decoded to {:?} with is_mod()={} is_builtin()={}", hex(&b), shape, v, v.is_mod(), v.is_builtin()),
+                json!({"bytes": hex(&b)}),
+            );
+        }
         match guarded(|| encode(v)) {
             Ok(Ok(w)) if w == b => {},
             other => p.violation(
